@@ -43,7 +43,7 @@ MANIFEST = {
             "admit MORE inputs, so they stay true; created <= modified is a co-constraint of the frozen tables and thus part "
             "of both), the preservation comparison of this file (JSON "
             "equality; timestamps as exact rational instants; additions only default-valued optionals), the Python check "
-            "that 2.0 object references are well typed. Oracle: ~800 presentations per quick run (alone / bundle / "
+            "that 2.0 object references are well typed. Oracle: ~1450 presentations per quick run (alone / bundle / "
             "observed-data container / two-call sequences in one process).",
     "technique": "Coq proof over the shared interpreter model + kernel-evaluated table refinement; oracle on the real "
                  "parse/serialize round trip of generated spec-valid objects; model correspondence on the same calls",
@@ -360,6 +360,33 @@ def gen_candidates(run, g, per_class):
     return cands
 
 
+def bound_candidates(g, rng):
+    """Every declared numeric bound, once: for each distinct (property name, kind, min, max) of the frozen tables an
+    object of the first class that has it, with the property exactly ON the bound (inclusive bounds: the poles, the
+    antimeridian, precision 0.0, confidence 0 / 100, port 0 / 65535 ...)."""
+    seen, out = set(), []
+    for cid, c in g.classes.items():
+        for s in c["slots"]:
+            k = s["kind"]
+            if k["k"] not in ("int", "float") or (k.get("min") is None and k.get("max") is None):
+                continue
+            sig = (s["name"], k["k"], k.get("min"), k.get("max"))
+            if sig in seen:
+                continue
+            seen.add(sig)
+            for b in (k.get("min"), k.get("max")):
+                if b is None:
+                    continue
+                for p in (0.8, 0.3):
+                    x = dict(g.obj(cid, 0, {"safe": True}, optional_p=p))
+                    x[s["name"]] = float(b) if k["k"] == "float" else int(b)
+                    if c["name"] == "Location" and s["name"] in ("latitude", "longitude", "precision"):
+                        x.setdefault("latitude", 1.5)
+                        x.setdefault("longitude", -2.5)
+                    out.append((cid, x, "on-bound"))
+    return out
+
+
 def extension_orders(g, rng):
     """2.1 objects with two or three extensions of mixed kinds (unregistered toplevel-property-extension with its
     extra top-level properties, unregistered property-extension, a registered extension) in every order."""
@@ -579,9 +606,10 @@ def check(run):
     variants = sc.detect_variants(run)
     g = stixgen.Gen(run.rng)
     defaults = default_pairs(g.spec)
-    cands = gen_candidates(run, g, 3 if quick else 16)
+    cands = gen_candidates(run, g, 6 if quick else 16)
     cands += fraction_sweep(g, run.rng, 160 if quick else 1500)
     cands += extension_orders(g, run.rng)
+    cands += bound_candidates(g, run.rng)
     cands += witness_candidates()
     failures, live = [], None
     if gen_ok:
